@@ -162,7 +162,10 @@ func (a *FuncAction) Exec(ctx context.Context, bs Bindings, props StepProps) (*E
 
 	exe, err := a.F(ctx, bs, props)
 
-	if Exp_PermanentBindings {
+	// Restore the permanent bindings into the bindings (if any)
+	// that the execution returned.  A failed execution can be nil,
+	// and nil bindings (say from a guard that rejects) stay nil.
+	if Exp_PermanentBindings && exe != nil && exe.Bs != nil {
 		for p, v := range permanent {
 			exe.Bs[p] = v
 		}
